@@ -107,9 +107,12 @@ func (h *Header) Contains(h2 *Header) bool {
 		return false
 	}
 	for _, s2 := range h2.Stamps {
+		if s2 == nil {
+			continue
+		}
 		match := false
 		for _, s := range h.Stamps {
-			if s.Provider == s2.Provider && s.Value == s2.Value {
+			if s != nil && s.Provider == s2.Provider && s.Value == s2.Value {
 				match = true
 				break
 			}
@@ -119,9 +122,12 @@ func (h *Header) Contains(h2 *Header) bool {
 		}
 	}
 	for _, l2 := range h2.Links {
+		if l2 == nil {
+			continue
+		}
 		match := false
 		for _, l := range h.Links {
-			if l.Key == l2.Key && l.URL == l2.URL {
+			if l != nil && l.Key == l2.Key && l.URL == l2.URL {
 				match = true
 				break
 			}
